@@ -29,11 +29,34 @@ Val(node, nq) ==
                      Acc(IF node.op = "+" THEN FVecAxpy(node.scales[k], v, acc) ELSE FVecMul(acc, v), k + 1)
          IN Acc(FVecConst(nq, IF node.op = "+" THEN "0.0" ELSE "1.0"), 1)
 
+\* the size of the terms that are added up at q index i (sums may cancel when a part scale is negative:
+\* the rounding allowance is relative to the terms, not to their sum)
+RECURSIVE MagAt(_, _)
+MagAt(node, i) ==
+    IF node.op = "leaf" THEN FAbs(node.I[i])
+    ELSE LET RECURSIVE Acc(_, _)
+             Acc(acc, k) ==
+                IF k > Len(node.kids) THEN acc
+                ELSE LET v == MagAt(node.kids[k], i) IN
+                     Acc(IF node.op = "+" THEN FAdd(acc, FMul(FAbs(node.scales[k]), v)) ELSE FMul(acc, v), k + 1)
+         IN Acc(IF node.op = "+" THEN "0.0" ELSE "1.0", 1)
+WithinTerms(e, I) ==
+    /\ Len(I) = Len(e.out)
+    /\ \A i \in 1..Len(e.out) :
+          FLeq(FAbs(FSub(e.out[i], I[i])),
+               FAdd(FMul(RTol, FAdd(FMul(FAbs(e.scale), MagAt(e.tree, i)), FAbs(e.background))), "1e-300"))
+
+\* every leaf was evaluated on the same q points as the expression
+RECURSIVE ShapeOK(_, _)
+ShapeOK(node, nq) == IF node.op = "leaf" THEN Len(node.I) = nq
+                     ELSE \A k \in 1..Len(node.kids) : ShapeOK(node.kids[k], nq)
+
 ApplyMix(e) ==
     LET nq == Len(e.out)
         I == FVecShift(e.background, FVecScale(e.scale, Val(e.tree, nq)))
     IN IF e.raised # "" THEN <<"raised", e.raised>>
-       ELSE IF ~FVecNear(e.out, I, RTol, "1e-300") THEN <<"mixture-law", ToString(<<"expected", I, "got", e.out>>)>>
+       ELSE IF ~ShapeOK(e.tree, nq) THEN <<"mixture-law", ToString(<<"result has", nq, "values, the parts have another number", e.out>>)>>
+       ELSE IF ~FVecNear(e.out, I, RTol, "1e-300") /\ ~WithinTerms(e, I) THEN <<"mixture-law", ToString(<<"expected", I, "got", e.out>>)>>
        ELSE <<>>
 
 TInit == l = 1 /\ st = 0 /\ TLCSet(1, 0) /\ TLCSet(2, 0)
